@@ -31,12 +31,13 @@ def appendAxis (a v : Arr α) (zero : α) (axis : Nat) : Res (Arr α) :=
     if ra ≠ rv then .err .ParameterError
     else
       a.splitAxis zero axis >>= fun arrays =>
+      -- `self.get_shape()?[axis] + values.get_shape()?[axis]` (slice indexing)
+      Res.idx a.shape axis >>= fun na =>
+      Res.idx v.shape axis >>= fun nv =>
+      let newAxisLen := na + nv
       v.splitAxis zero axis >>= fun vals =>
       let array : Arr α := Arr.flat ((arrays ++ vals).flatMap (·.elems))
-      let remLen := ra.prod
-      -- `array.len()? / self_rem_len`: integer division panics on a zero divisor
-      if remLen = 0 then .panic else
-      let newShape := a.shape.set axis (array.len / remLen)
+      let newShape := a.shape.set axis newAxisLen
       let tmpShape := listSwap newShape 0 axis
       let order : List Int := ((List.range' 1 (a.ndim - 1)).insertIdx axis 0).map Int.ofNat
       array.reshape tmpShape >>= fun t =>
